@@ -137,7 +137,7 @@ func c09Attr(t *rapid.T, label string) string {
 }
 
 // names distinct from the shared appPool so that template apps never merge with intent apps
-var c09ChainNames = []string{"Mx Aa", "Mx :: Bb", "MxCc", "Mx Dd", "Mx :: Ee", "MxFf", "MxZz"}
+var c09ChainNames = []string{"Mx Aa", "Mx :: Bb", "MxCc", "Mx Dd", "Mx :: Ee", "MxFf", "MxZz", "Mx Gg Hh", "Mx Ii Service"}
 
 func c09GenTmpl(t *rapid.T, o c09TmplOpt) c09Tmpl {
 	w := &c09w{ind: pick(t, []string{"    ", "  ", "\t"}, "tind")}
